@@ -1,9 +1,9 @@
-SPECIFICATION SpecC11SharedCancelR
+SPECIFICATION SpecC11PrepGiveUp
 CONSTANTS
   Validators = {1, 2}
   Externals = {3}
   Relays = {1, 2}
-  Nodes = {1, 2}
+  Nodes = {1, 2, 3}
   DocIds = {2, 3}
   FailKinds = {"error"}
   Ops = {}
@@ -11,8 +11,8 @@ CONSTANTS
   AuctionImpl = "intended"
   Resolution = "locked"
   MaxRounds = 2
-  ErrKinds <- ErrKindsOne
-INVARIANTS TypeOKC11 ForwardedAll
+
+INVARIANTS TypeOKC11 PreparationIsolated
 CONSTRAINT RoundBound
 CONSTRAINT NoLane2
 CHECK_DEADLOCK FALSE
